@@ -797,5 +797,8 @@ LEVEL_NOTE = ("Trusted: Lean kernel + propext/Classical.choice/Quot.sound; fidel
               "longer than size()-pos the overwrite runs past size(): replace_breaks_terminator_counterexample) is compared on every run "
               "but has no positive theorem; on a line that hits a known finding only impl-vs-spec is evaluated (lib.evaluate stops at the "
               "first relation that fails), so there the model's mirror of the defect is checked by the counterexample theorems only.")
-CORRESPONDENCE_ONLY = ["replace(pos, count, …) with count > size()-pos (wrapped end pointer of str_replace; part of the known finding "
+CORRESPONDENCE_ONLY = [
+    "negative wchar_t code units (wchar_t is signed here): the model orders code units as naturals, which is char_traits::lt for char / char8_t / "
+    "char16_t / char32_t and for non-negative wchar_t values; comparisons of negative wchar_t units are generated and checked by C08 (string_view, "
+    "same char_traits), not here","replace(pos, count, …) with count > size()-pos (wrapped end pointer of str_replace; part of the known finding "
                        "F-C04-replace-overwrites-only when the lengths differ)"]
